@@ -47,6 +47,21 @@ chk("C26", "MIR CFG: exit(1) edge-dominated by failures>0 and reached unconditio
     "Trusted: rustc MIR. Independence with respect to namespace-level state (definitions a test mutates) is not decided.",
     "DESIGN.md section 4 C26")
 
+chk("C34", "MIR CFG: value hand-out edge-dominated by exported_syms.contains (run time and check time), filtered copy for unqualified imports, visibility bookkeeping per arm, cycle guard dominance, who-may-write",
+    "Both places that hand a member of an imported namespace to a program are proved to pass the visibility test on every path from the lookup hit; unqualified imports copy only tested members; exported_syms is maintained in one function with Public=>insert/CurrentFile=>remove; the recursive import load is behind the paths_seen test.",
+    "Trusted: rustc MIR. Re-exports through chains of namespaces and type visibility are not decided.",
+    "DESIGN.md section 4 C34")
+
+chk("C30", "MIR dominance chain eval<drop<join<drain<done; interval path-count dataflow done==1 per handler/op arm with callee summaries; last-message and in-order-send shapes",
+    "Ordering clauses proved on every CFG path: the flusher is joined and both buffers drained before any `done` is built, each handler and each op arm yields exactly one `done` (min=max=1 over all paths), and it is the last element sent. Interleavings beyond join-before-final-drain are not decided.",
+    "Trusted: rustc MIR; mpsc FIFO; single writer thread. Thread schedules are not explored (a static analysis cannot); worker panic-freedom is a separate obligation.",
+    "DESIGN.md section 4 C30")
+
+chk("C31", "MIR: reset-on-dequeue must-pass, interrupt addressing provenance (lookup key derives from request session id), who-sets-the-flag, per-step load dominance",
+    "Necessary conditions named by the property, each proved for all paths: flag cleared between dequeue and handler and never after; interrupt/close address exactly the named session; only four sites set a flag; evaluator loads it every step. Lost/leaked interrupts under specific interleavings are NOT decided.",
+    "Trusted: rustc MIR. Schedules are out of reach of static analysis; these are necessary, not sufficient, conditions.",
+    "DESIGN.md section 4 C31")
+
 ENGINES = [
  {"name": "gfacts", "path": "tools/gfacts", "kind_free_text": "rustc_private driver (nightly) dumping the type-checked MIR (CFG, resolved callees, asserts, places with field names) of every function of the garden crate as JSON; run as RUSTC_WORKSPACE_WRAPPER under cargo +nightly check on /repo's current tree"},
  {"name": "gshape", "path": "tools/gshape", "kind_free_text": "syn-2 syntax tree dumper (match arms, patterns, literals, struct initialisers) for table/shape rules"},
